@@ -61,10 +61,10 @@ PROPS = {
     },
     "C02": {
         "n": {"quick": 40, "thorough": 600}, "diff_is_failure": True, "judge": True, "trivial_outs": {"i1", ""}, "run_timeout": 2400,
-        "rule": "sweeper paused through the VERIF hook; (a) random histories of TTL setters (PX 200/400, EX 1, SETEX, PSETEX, EXPIRE, PEXPIRE incl. <= 0), overwrites, PERSIST, RENAME, in-place modifications and reads on 4 keys (two sharing an engine shard), SLEEP 300 steps of the logical clock and full sweeper passes started at known instants, ending with a dump (VERIF INDEX 0 = key/stored deadline/indexed deadline/present, EXISTS/PTTL/GET); (b) for each of 13 racing commands x {TTL still set, TTL already cleared}: SET t PX 200, sleep, sweeper stopped between its scan and its deletions, the racing command, release, dump, another pass, dump; one evaluation = one reply or dump compared with the model; distinct = distinct (command, reply) pairs",
+        "rule": "sweeper paused through the VERIF hook; (a) random histories of TTL setters (PX 200/400, EX 1, SETEX, PSETEX, EXPIRE, PEXPIRE incl. <= 0), overwrites, PERSIST, RENAME, in-place modifications and reads on 4 keys (two sharing an engine shard), SLEEP 300 steps of the logical clock and full sweeper passes started at known instants, ending with a dump (VERIF INDEX 0 = key/stored deadline/indexed deadline/present, EXISTS/PTTL/GET); (b) for each of 13 racing commands x {TTL still set, TTL already cleared}: SET t PX 200, sleep, sweeper stopped between its scan and its deletions, the racing command, release, dump, another pass, dump; (c) list/set/hash keys (C03 family): their commands and EXPIRE/PEXPIRE/PERSIST on cl/cs/ch inside the random histories (LPUSH/SADD/HSET/pops/reads after the deadline with the sweeper paused: no lazy expiry), and the scan/delete window for 23 racing command sequences x {deadline still set, collection drained and re-created so that only a stale index entry remains}; collection keys are dumped by TYPE/PTTL/LRANGE/SMEMBERS/HGETALL; one evaluation = one reply or dump compared with the model; distinct = distinct (command, reply) pairs",
         "explanation": "theorems: never-early over all interleavings of the two sweeper phases with client commands, sweeper only removes, sweep completeness, lazy expiry of GET/EXISTS, TTL bookkeeping, TTL/PTTL replies; tie: stepped/gated real sweeper on a logical clock",
         "trusted_base": SRV_TB + ["the VERIF hook (cfg ferrous_verif): sweeper PAUSE/STEP/GATE/RELEASE/WAITING/PASSES and INDEX dump"],
-        "assumptions": ["list/set/hash/zset/stream keys are covered as their families are merged", "the clock itself and the sweeper's 1 s period are not modelled (theorems hold for any period)"],
+        "assumptions": ["zset/stream keys are covered as their families are merged", "the clock itself and the sweeper's 1 s period are not modelled (theorems hold for any period)"],
     },
     "C05": {
         "n": {"quick": 60, "thorough": 1200}, "diff_is_failure": True, "trivial_outs": {"i1", ""}, "run_timeout": 2400,
